@@ -579,6 +579,67 @@ GEN(int) @G(n int) {
 	RETURN
 }`, Drives: []Drive{fn("int", "@Plain", "3"), gen("int", "@G", "2")}},
 
+	// ---------------- C02 / C07: yielded expressions of every syntactic shape, at the head of every kind of block ----------------
+	// (the optimiser elides the Delay around a Bind whose value is a literal: nothing else may be evaluated when the
+	//  combinator is constructed; E logs show exactly when each operand runs relative to START / M markers)
+	{Name: "YieldExprShapes", Props: []string{"C02", "C07", "C01"}, Src: `
+type @Ev struct {
+	ID   int
+	Name string
+}
+func @id(tag string, n int) int { vm.E("eval", tag, n); return n }
+GEN(any) @Head(n int) {
+	YIELD(@Ev{ID: @id("head", n), Name: "h"})
+	vm.E("after-head")
+	YIELD([]int{@id("slice", n + 1)})
+	YIELD(map[string]int{"k": @id("map", n + 2)})
+	YIELD(&@Ev{@id("ptr", n + 3), "p"} != nil)
+	YIELD([2]int{@id("arr", n + 4), 1})
+	RETURN
+}
+GEN(any) @Loop(n int) {
+	for i := 0; i < n; i++ {
+		YIELD(@Ev{ID: @id("loophead", i), Name: "it"})
+		vm.E("after", i)
+	}
+	YIELD(@Ev{ID: @id("afterloop", n), Name: "sum"})
+	if n > 1 {
+		YIELD(struct{ A, B int }{@id("anon", 1), 2})
+	} else {
+		YIELD([]any{@id("else", 2), nil})
+	}
+	switch n > 0 {
+	case true:
+		YIELD(@Ev{@id("case", 3), "c"})
+	default:
+		YIELD(@Ev{@id("default", 4), "d"})
+	}
+	RETURN
+}
+GEN(int) @Ops(n int) {
+	YIELD(-@id("neg", n))
+	YIELD(@id("lhs", n) + @id("rhs", 1))
+	YIELD([]int{7, 8, 9}[@id("idx", n % 3)])
+	YIELD(int(int64(@id("conv", n))))
+	YIELD((@id("paren", n)))
+	YIELD(func() int { return @id("lit", n) }())
+	YIELD(len([]int{@id("len", n)}))
+	YIELD(@Ev{ID: @id("sel", n)}.ID)
+	YIELD(*(&[]int{@id("star", n)}[0]))
+	YIELD(any(@id("assert", n)).(int))
+	YIELD(1)
+	YIELD(len("abc"))
+	RETURN
+}
+GEN(string) @Strs(n int) {
+	YIELD("lit")
+	YIELD("a" + "b")
+	YIELD(string(rune(@id("rune", 65 + n))))
+	YIELD([]string{"p", "q"}[@id("sidx", n % 2)])
+	RETURN
+}`, Drives: []Drive{gen("any", "@Head", "1"), gen("any", "@Loop", "0"), gen("any", "@Loop", "1"), gen("any", "@Loop", "3"),
+		gen("int", "@Ops", "2"), gen("string", "@Strs", "1")}},
+
 	// ---------------- C18 / C02: panics and effects at precise points ----------------
 	{Name: "PanicPositions", Props: []string{"C18", "C02"}, Src: `
 GEN(int) @Inner(n int) {
